@@ -210,6 +210,7 @@ func SelfTest() error {
 		`<a b="1" b="2"/>`, `<p:a/>`, `<a p:b="1"/>`, "<a>\x01</a>", `<a>&nope;</a>`, `<a b="<"/>`,
 		`<a b=1/>`, `<a>]]></a>`, `<a><![CDATA[x</a>`, "<a>\xff</a>", `<a xmlns:p=""/>`, `<a>&</a>`, `<a><</a>`,
 		"<a>￾</a>", `<a b="x/>`,
+		`<a><!DOCTYPE a></a>`, `<a/><!DOCTYPE a>`, `<a><?xml version="1.0"?></a>`, `<a><!ENTITY x "y"></a>`,
 	}
 	for _, s := range bad {
 		if Check([]byte(s)) == nil {
@@ -220,6 +221,7 @@ func SelfTest() error {
 		"\xef\xbb\xbf<a/>", `<a/>`, `<?xml version="1.0" encoding="UTF-8"?><a xmlns:p="u"><p:b p:c="1">x &amp; y &#x4e2d;</p:b></a>`,
 		"<a>\t\n\r é 中 😀</a>", `<a b="&lt;"/>`, `<a><![CDATA[<x>]]></a>`, `<!-- c --><a/><!-- d -->`,
 		`<a xmlns="u"><b xml:space="preserve"> </b></a>`, `<a b='"'/>`,
+		`<a><!-- <!DOCTYPE a> --></a>`, `<a><![CDATA[<!DOCTYPE a>]]></a>`, `<!DOCTYPE a><a/>`,
 	}
 	for _, s := range good {
 		if err := Check([]byte(s)); err != nil {
